@@ -56,7 +56,7 @@ _k = z3.Int("_it_k")
 TH.axiom([_n, _s], iv(i_sym(_n), _s), iv(i_sym(_n), _s) == asg(_s, _n), "iv.sym")
 TH.axiom([_c, _s], iv(i_const(_c), _s), iv(i_const(_c), _s) == _c, "iv.const")
 TH.axiom([_a, _b, _s], iv(i_sub(_a, _b), _s), iv(i_sub(_a, _b), _s) == iv(_a, _s) - iv(_b, _s), "iv.sub")
-SumIV = prefix_fun("SumIV", [LITerm.sort, Asg], Int, lambda l, s: z3.IntVal(0), lambda l, s, k, prev: prev + iv(LITerm.at(l, k), s))
+SumIV = prefix_fun("SumIV", [LITerm.sort, Asg], Int, lambda l, s: z3.IntVal(0), lambda l, s, k, prev: prev + iv(LITerm.at(l, k), s), max_chain=2)
 TH.axiom([_tl, _s], iv(i_plusl(_tl), _s), iv(i_plusl(_tl), _s) == SumIV(_tl, _s, LITerm.len(_tl)), "iv.plus")
 TH.axiom([_a, _b, _s], hold(i_le(_a, _b), _s), hold(i_le(_a, _b), _s) == (iv(_a, _s) <= iv(_b, _s)), "hold.le")
 TH.axiom([_a, _b, _s], hold(i_lt(_a, _b), _s), hold(i_lt(_a, _b), _s) == (iv(_a, _s) < iv(_b, _s)), "hold.lt")
@@ -176,3 +176,44 @@ def fstr_fun(template, sorts):
     if key not in _fstr:
         _fstr[key] = z3.Function("fstr<" + template + ">" + "".join("_" + str(s) for s in sorts), *sorts, StrSort)
     return _fstr[key]
+
+
+# ---------------------------------------------------------------------------
+# sums of named symbols over a key list, and the congruence lemma (induction, lemmas/zlemmas.py)
+#   Sum<tag>(l, s, n) = sum of asg(s, Name(l[k])) for k < n
+#   lemma.SumCong.<tag>:  SumIV(tl, s, n) != Sum<tag>(kl, s, n)  ==>  some k < n has
+#                         iv(tl[k], s) != asg(s, Name(kl[k]))          (k named by a witness function)
+# ---------------------------------------------------------------------------
+LInt = L.LInt
+NAMED_SUMS: dict = {}
+
+
+def named_sum(tag, NameFn):
+    if tag in NAMED_SUMS:
+        return NAMED_SUMS[tag][0]
+    S = prefix_fun(f"Sum{tag}", [LInt.sort, Asg], Int, lambda l, s: z3.IntVal(0), lambda l, s, k, prev: prev + asg(s, NameFn(LInt.at(l, k))), max_chain=2)
+    tl = z3.Const(f"_sc{tag}_tl", LITerm.sort)
+    kl = z3.Const(f"_sc{tag}_kl", LInt.sort)
+    s = z3.Const(f"_sc{tag}_s", Asg)
+    n = z3.Int(f"_sc{tag}_n")
+    W = z3.Function(f"SumCong{tag}!w", LITerm.sort, LInt.sort, Asg, Int, Int)
+    w = W(tl, kl, s, n)
+    TH.axiom(
+        [tl, kl, s, n],
+        [SumIV(tl, s, n), S(kl, s, n)],
+        z3.Implies(z3.And(0 <= n, SumIV(tl, s, n) != S(kl, s, n)), z3.And(0 <= w, w < n, iv(LITerm.at(tl, w), s) != asg(s, NameFn(LInt.at(kl, w))))),
+        f"lemma.SumCong.{tag}",
+    )
+    NAMED_SUMS[tag] = (S, NameFn)
+    return S
+
+
+# lemma (two inductions, lemmas/zlemmas.py): the sum over a concatenation
+_c1, _c2 = z3.Consts("_sci_1 _sci_2", LITerm.sort)
+_cm = z3.Int("_sci_m")
+TH.axiom(
+    [_c1, _c2, _s, _cm],
+    SumIV(LITerm.concat(_c1, _c2), _s, _cm),
+    z3.Implies(_cm == LITerm.len(_c1) + LITerm.len(_c2), SumIV(LITerm.concat(_c1, _c2), _s, _cm) == SumIV(_c1, _s, LITerm.len(_c1)) + SumIV(_c2, _s, LITerm.len(_c2))),
+    "lemma.SumIV.concat",
+)
